@@ -52,13 +52,15 @@ Section RG.
   (** what [RG] says about the current position *)
   Lemma RG_facts p g : RG p g ->
     vcol (a_turn p) /\ wf_b (a_position p) (a_turn p) = true /\ PositionLemmas.Inv (a_position p) /\
-    abs_pos (a_position p) = g_pos g /\ color_of (a_turn p) = g_turn g /\ Z.of_N (a_noprogress p) = g_clock g.
+    abs_pos (a_position p) = g_pos g /\ color_of (a_turn p) = g_turn g /\
+    Z.of_N (a_noprogress p) = Z.min (g_clock g) (Z.of_N max_int).
   Proof.
     intros (_ & [Hh _] & [A [B _]]).
     destruct (hist_head z _ _ Hh) as [Ht [pos [n [r [Ed Hwf]]]]].
     unfold a_position, a_noprogress in *. rewrite Ed in *. cbn [hd fst snd states epos] in *.
     inversion A as [[E1 E2 E3]].
-    split; [exact Ht|]. split; [exact Hwf|]. split; [exact (wf_inv _ _ (wf_b_WF _ _ Hwf))|]. auto.
+    split; [exact Ht|]. split; [exact Hwf|]. split; [exact (wf_inv _ _ (wf_b_WF _ _ Hwf))|].
+    split; [auto|]. split; [auto|exact B].
   Qed.
 
   (** ** set-up *)
@@ -70,13 +72,14 @@ Section RG.
   Qed.
 
   Theorem RG_new pos turn np fm : wf_b pos turn = true -> (turn = White \/ turn = Black) ->
+    (np <= max_int)%N ->
     let gb := new_board z [] pos turn np fm in
     RG (abs (fst gb) (snd gb)) (g_start (abs_pos pos) (color_of turn) (Z.of_N np) fm) /\
     BAt (abs (fst gb) (snd gb)) gb /\ gb_draw gb = false.
   Proof.
-    intros Hw Ht gb.
+    intros Hw Ht Hnp gb.
     assert (Hwf : wf (fst gb) (snd gb)) by (apply (wf_new z pos turn np fm); [exact Ht|reflexivity]).
-    destruct (Game_new z pos turn np fm (fst gb) (snd gb) Hw Ht eq_refl) as [HGame _].
+    destruct (Game_new z pos turn np fm (fst gb) (snd gb) Hw Ht Hnp eq_refl) as [HGame _].
     assert (HB : BAt (abs (fst gb) (snd gb)) gb).
     { split; [exact Hwf|]. split; [apply aeq_nr_refl|]. split; [exact Ht|]. split.
       - rewrite <- (get_position _ _ Hwf). exact Hw.
